@@ -44,6 +44,7 @@ class Unit:
         self.js_configs = js_configs or [()]
         self.out = {}
         self.rejected = {}
+        self.optional = False   # a backend may refuse this module: it is judged only where it is accepted
 
     def witness_base(self, lang, variant=()):
         w = {"unit": self.uid, "lang": lang, "config_file": self.config_file, "configs": self.configs + list(variant)}
@@ -602,6 +603,7 @@ def run(tier):
     shutil.rmtree(os.path.join(wd, "cbgate"), ignore_errors=True)
 
     modules = dict(U.SHAPE_GROUPS)
+    modules.update(U.OPTIONAL_GROUPS)
     modules["cb"] = U.cb_source(cb_ok)
     for r in U.ROLES:
         modules["kw_" + r.replace("-", "_")] = U.kw_source(r, role_names[r])
@@ -616,6 +618,10 @@ def run(tier):
     for g in sorted(U.SHAPE_GROUPS):
         units.append(Unit("shape:" + g, os.path.join(crate, "src", g + ".rs"), source=modules[g], small=True))
     units.append(Unit("shape:cb", os.path.join(crate, "src", "cb.rs"), source=modules["cb"], configs=["unsafe_references_in_callbacks=true"], small=False, labels=cb_labels))
+    for g in sorted(U.OPTIONAL_GROUPS):
+        u = Unit("shape:" + g, os.path.join(crate, "src", g + ".rs"), source=modules[g], small=True)
+        u.optional = True
+        units.append(u)
 
     # ------------------------------------------------------------------ (C) the repository's own bridges
     for name in ("feature_tests", "example"):
@@ -633,7 +639,7 @@ def run(tier):
         for tag in list(u.rejected):
             if "Lowering error" in u.rejected[tag] and not u.uid.startswith("repo:"):
                 raise MachineryError("generated module %s is rejected by the gate (%s): %s" % (u.uid, tag, u.rejected[tag]))
-        if not u.out:
+        if not u.out and not u.optional:
             raise MachineryError("no backend accepted %s: %s" % (u.uid, u.rejected))
 
     # ------------------------------------------------------------------ standalone jobs
